@@ -7,6 +7,9 @@ from vlib import *
 
 PKG = "p2p/host/observedaddrs"
 OVERLAY = {PKG + "/zz_c17_verif_test.go": "harness/overlay/observedaddrs/c17_verif_test.go"}
+HPKG = "p2p/host/basic"
+HOVERLAY = {HPKG + "/zz_c17_bridge_verif_test.go": "harness/overlay/basichost/c17_bridge_verif_test.go",
+            HPKG + "/zz_c17_host_verif_test.go": "harness/overlay/basichost/c17_host_verif_test.go"}
 
 
 def consts(ctx):
@@ -21,8 +24,24 @@ def harness(ctx, casefile, tier, seed):
     if ctx.tier == "thorough" and not _chk:
         _chk.append(1)
         ctx.coqchk(["Verif.c17.Properties"])
-    return ctx.go_test(PKG, "TestVerifC17$", OVERLAY,
-                       env={"VERIF_OUT": casefile, "VERIF_TIER": tier, "VERIF_SEED": str(seed)}, timeout=1500)
+    rc, out = ctx.go_test(PKG, "TestVerifC17$", OVERLAY,
+                          env={"VERIF_OUT": casefile, "VERIF_TIER": tier, "VERIF_SEED": str(seed)}, timeout=1500)
+    if rc != 0 or not os.path.exists(casefile):
+        return rc, out
+    # host-level part (p2p/host/basic): its cases and coverage are appended
+    hf = casefile + ".host"
+    for p in (hf, hf + ".cov"):
+        if os.path.exists(p):
+            os.remove(p)
+    rc2, out2 = ctx.go_test(HPKG, "TestVerifC17Host$", HOVERLAY,
+                            env={"VERIF_OUT": hf, "VERIF_TIER": tier, "VERIF_SEED": str(seed)}, timeout=1500)
+    if rc2 != 0 or not os.path.exists(hf):
+        return (rc2 or 1), out2
+    with open(casefile, "a") as f:
+        f.write(open(hf).read())
+    with open(casefile + ".cov", "a") as f:
+        f.write(open(hf + ".cov").read())
+    return 0, out + out2
 
 
 def warm(ctx):
@@ -32,6 +51,9 @@ def warm(ctx):
 
 
 def replay_harness(ctx, casefile, toks):
+    if toks and toks[0] == 18:
+        return ctx.go_test(HPKG, "TestVerifC17HostReplay$", HOVERLAY,
+                           env={"VERIF_OUT": casefile, "VERIF_REPLAY_CASE": " ".join(map(str, toks))}, timeout=600)
     return ctx.go_test(PKG, "TestVerifC17Replay$", OVERLAY,
                        env={"VERIF_OUT": casefile, "VERIF_REPLAY_CASE": " ".join(map(str, toks))}, timeout=600)
 
@@ -76,7 +98,31 @@ def fmt_op(op):
     return ("markclosed(conn=%d)" if op[0] == 2 else "disconnect(conn=%d)") % op[1]
 
 
+def parse_host(t):
+    nx = t[4]
+    xs = [(t[5 + 2 * j], t[6 + 2 * j]) for j in range(nx)]
+    i = 5 + 2 * nx
+    steps = []
+    while i + 3 + 5 * nx <= len(t):
+        op = tuple(t[i:i + 3]); i += 3
+        rows = [tuple(t[i + 5 * j:i + 5 * j + 5]) for j in range(nx)]; i += 5 * nx
+        steps.append((op, rows))
+    return {"mode": t[1], "thresh": t[2], "nconn": t[3], "x(pub,hidden)": xs}, steps
+
+
+def fmt_hop(op, nx):
+    if op[0] == 1:
+        return "conn %d reports %s" % (op[1], "a loopback address" if op[2] >= nx else "X%d" % op[2])
+    return "conn %d disconnects" % op[1]
+
+
 def describe(t):
+    if t and t[0] == 18:
+        cfg, steps = parse_host(t)
+        nx = len(cfg["x(pub,hidden)"])
+        cfg["mode"] = "Private with relay address" if cfg["mode"] == 1 else "plain"
+        cfg["steps"] = ["%s; updateAddrs -> per X (inAddrsFor, inAddrs(1), inDirectAddrs, inAddrs, inHolePunchAddrs)=%s" % (fmt_hop(o, nx), [list(r) for r in rows]) for o, rows in steps]
+        return cfg
     try:
         cfg, steps = parse(t)
     except Exception:
@@ -90,13 +136,22 @@ def nontrivial(line):
     # a case is non-trivial when some AddrsFor/Addrs(0) answer was non-empty,
     # i.e. an observed address crossed the activation threshold
     try:
-        _, steps = parse([int(x) for x in line.split()])
+        t = [int(x) for x in line.split()]
+        if t[0] == 18:
+            # host case: non-trivial when an observed address reached a view of the host
+            return any(r[2] or r[3] or r[4] for _, rows in parse_host(t)[1] for r in rows)
+        _, steps = parse(t)
     except Exception:
         return False
     return any(al or any(fors) for _, fors, al in steps)
 
 
 def key(tag, toks, d):
+    if toks and toks[0] == 18:
+        cfg, steps = parse_host(toks)
+        idx = d[1] if len(d) > 1 else 0
+        return "C17:host:%s:x=%s:mode=%s:hidden=%s:%s" % (tag, (d[2] - 100) if len(d) > 2 else "?", cfg["mode"], [h for _, h in cfg["x(pub,hidden)"]],
+                                                       ";".join(fmt_hop(o, len(cfg["x(pub,hidden)"])) for o, _ in steps[:idx + 1]))
     # identity = failing clause (which answer) + configuration + the history up to the failing step
     try:
         cfg, steps = parse(toks)
@@ -109,6 +164,9 @@ def key(tag, toks, d):
 
 
 def what(tag, toks, d):
+    if toks and toks[0] == 18:
+        return "host view (DirectAddrs/Addrs/HolePunchAddrs) contains observed address X%s that the observed address manager no longer reports, after step %s (diag %s)" % (
+            (d[2] - 100) if len(d) > 2 else "?", d[1] if len(d) > 1 else "?", d)
     which = d[2] if len(d) > 2 else "?"
     return "observed-address answer %s violates the property after step %s (diag %s)" % (
         "Addrs(0)" if which == -1 else "AddrsFor(query %s)" % which, d[1] if len(d) > 1 else "?", d)
@@ -140,6 +198,9 @@ if __name__ == "__main__":
              "plus a malformed stream; 1 observe in 10 runs with a hook on the listenAddrs() call inside shouldRecordObservation that closes and disconnects "
              "the observed (or another) connection before the manager's lock is taken. After every op AddrsFor(q) for every listen address and two non-listen addresses and Addrs(0) are recorded as lists "
              "(order kept), compared with the Coq model (conform_case) and judged by the property monitor (monitor_case). Non-trivial = some answer was "
-             "non-empty (an address crossed the threshold); distinct = distinct case lines among those.",
+             "non-empty (an address crossed the threshold); distinct = distinct case lines among those. "
+             "Host level (quick 120 / thorough 1500 histories + 4 corpus): a real addrsManager fed by the real observedaddrs.Manager through the event bus "
+             "and Disconnected notifications, observed addresses hidden by an AddrsFactory and/or the host Private with a relay address; after every op and "
+             "updateAddrsSync, DirectAddrs/Addrs/HolePunchAddrs are compared per tracked address with what AddrsFor/Addrs(1) answer at that moment.",
         describe=describe, key=key, what=what, crosscheck=60,
     ))
